@@ -45,19 +45,24 @@ ASSUMPTIONS = [
 
 
 def corner_explains(m, fdef, arg_lits, vardefs, coerced):
-    """The deferred-to-run-time exception: nullable variable (null at run time) at a non-null argument
-    position that validation allowed because the variable or the argument has a default."""
+    """The deferred-to-run-time exception: a nullable variable that is null at run time (given or by default)
+    at a non-null position - an argument, an input object field or a list item, also inside a bare item that
+    stands for a list of one - which validation allowed because the variable or the position has a default."""
     defs = {a["name"]: a for a in fdef["args"]}
     for name, lit in arg_lits:
         a = defs.get(name)
-        if a is None or lit["k"] != "var":
+        if a is None:
             continue
-        vd = vardefs.get(lit["n"])
-        if vd is None:
-            continue
-        if is_nn(a["type"]) and not is_nn(vd["t"]) and (vd["default"] is not None or a["default"] is not None) \
-                and coerced.get(lit["n"], "absent") is None:
-            return True
+        pos = []
+        holder = [name, lit]
+        g3._typed_positions(m, a["type"], lit, pos, holder, 1)
+        for h, k, pt in pos:
+            x = h[k]
+            if x["k"] != "var" or not is_nn(pt):
+                continue
+            vd = vardefs.get(x["n"])
+            if vd is not None and not is_nn(vd["t"]) and coerced.get(x["n"], "absent") is None:
+                return True
     return False
 
 
